@@ -53,6 +53,10 @@ Definition serial_fn (st : list stage) : Q -> Q :=
   let pts := serial_points st in let ds := map Qred (derivs pts) in fun x => Qred (eval_aux pts ds x).
 Lemma serial_fn_eq st x : serial_fn st x = serial_curve st x.
 Proof. reflexivity. Qed.
+(* SerialSystem.__init__: the rating of the chain, when the caller leaves it out, is the rating of the FIRST stage - the
+   one the chain's efficiency curve is referred to *)
+Definition serial_rating (given : option Q) (st : list (Q * curve)) : Q :=
+  match given with Some r => r | None => match st with rc :: _ => fst rc | [] => 0 end end.
 Definition serial_accepted (rated : Q) (st : list (Q * curve)) : bool :=
   forallb (fun rc => p_accepted (prepare (fst rc) (curve_fn (snd rc)))) st &&
   p_accepted (prepare rated (serial_fn (mk_stages st))).
